@@ -9,15 +9,27 @@
 /// `?` sites use.
 pub enum ArchiveError {
     NotFile(PathBuf),
+    NoArchiveAccount(String),
+    ArchiveAccountIdMismatch,
     ArchiveChecksumMismatch(String),
     NoArchiveManifest,
+    NoArchiveVault(PathBuf),
     ArchiveAccountAlreadyExists(String),
+    TryFromSlice(TryFromSliceError),
     Io(Error),
     Core(CoreError),
     ZipArchive(ZipError),
     Vault(VaultError),
     Hex(FromHexError),
+    Json(JsonError),
+    FileSystem(FsError),
+    Uuid(UuidParseError),
 }
+/// sos_filesystem::Error / uuid::Error (opaque)
+#[derive(Debug)]
+pub struct FsError { pub _p: () }
+#[derive(Debug)]
+pub struct UuidParseError { pub _p: () }
 pub type ArchiveResult<T> = core::result::Result<T, ArchiveError>;
 #[verifier::external]
 impl core::fmt::Debug for ArchiveError {
@@ -28,6 +40,11 @@ impl FromSpecImpl<Error> for ArchiveError {
     open spec fn from_spec(e: Error) -> ArchiveError { ArchiveError::Io(e) }
 }
 impl From<Error> for ArchiveError { fn from(e: Error) -> (r: ArchiveError) { ArchiveError::Io(e) } }
+impl FromSpecImpl<TryFromSliceError> for ArchiveError {
+    open spec fn obeys_from_spec() -> bool { true }
+    open spec fn from_spec(e: TryFromSliceError) -> ArchiveError { ArchiveError::TryFromSlice(e) }
+}
+impl From<TryFromSliceError> for ArchiveError { fn from(e: TryFromSliceError) -> (r: ArchiveError) { ArchiveError::TryFromSlice(e) } }
 impl FromSpecImpl<CoreError> for ArchiveError {
     open spec fn obeys_from_spec() -> bool { true }
     open spec fn from_spec(e: CoreError) -> ArchiveError { ArchiveError::Core(e) }
